@@ -23,6 +23,29 @@ import (
 
 var nineAlgs = map[string]bool{"RS256": true, "RS384": true, "RS512": true, "PS256": true, "PS384": true, "PS512": true, "ES256": true, "ES384": true, "ES512": true}
 
+// satSeconds: a NumericDate in whole seconds, saturated at ±2^62 (beyond that the order relative to any clock reading is decided)
+func satSeconds(x float64) int64 {
+	const lim = 1 << 62
+	if x >= lim {
+		return lim
+	}
+	if x <= -lim {
+		return -lim
+	}
+	return int64(x)
+}
+
+// laterThan reports whether the instant `sec` seconds (+ `plus` seconds) since the epoch is later than nowNs, without overflow
+func laterThan(sec, plus, nowNs int64) bool {
+	if sec > 1<<33 { // (beyond the year 2242: (sec+plus)*1e9 would not fit; any clock reading of a run is earlier)
+		return true
+	}
+	if sec < -(1 << 33) {
+		return false
+	}
+	return (sec+plus)*1e9 > nowNs
+}
+
 func jShape(v interface{}, present bool) interface{} {
 	if !present {
 		return nil
@@ -31,10 +54,7 @@ func jShape(v interface{}, present bool) interface{} {
 	case string:
 		return M{"t": "str", "s": x}
 	case float64:
-		if x > 4e18 || x < -4e18 || x != x {
-			return M{"t": "other"}
-		}
-		return M{"t": "num", "n": int64(x)}
+		return M{"t": "num", "n": satSeconds(x)}
 	case []interface{}:
 		items := make([]interface{}, 0, len(x))
 		for _, it := range x {
@@ -110,17 +130,18 @@ func describe(raw string, ks []*signKey, nowNs int64) (M, bool) {
 		return d, false
 	}
 	const skewF, skewP = int64(120), int64(10)
+	// (times in whole seconds, compared without overflow: a date beyond any clock is later than now, one before any clock earlier)
 	exp, ok := claims["exp"].(float64)
-	if !ok || nowNs > (int64(exp)+skewF)*1e9 {
+	if !ok || !(laterThan(satSeconds(exp), skewF, nowNs) || satSeconds(exp) < 1<<33 && satSeconds(exp) > -(1<<33) && (satSeconds(exp)+skewF)*1e9 == nowNs) {
 		return d, false
 	}
 	iat, ok := claims["iat"].(float64)
-	if !ok || nowNs < (int64(iat)-skewP)*1e9 {
+	if !ok || laterThan(satSeconds(iat), -skewP, nowNs) {
 		return d, false
 	}
 	if nv, present := claims["nbf"]; present {
 		nbf, ok := nv.(float64)
-		if !ok || nowNs < (int64(nbf)-skewP)*1e9 {
+		if !ok || laterThan(satSeconds(nbf), -skewP, nowNs) {
 			return d, false
 		}
 	}
@@ -267,6 +288,13 @@ func jwtCases(k *signKey, alg string, other []*signKey, now time.Time, rnd func(
 	for _, v := range []interface{}{nil, true, "soon", fmt.Sprint(nowS), []interface{}{nowS}, M{}, nowS - 100, nowS + 9, nowS + 10, nowS + 11, nowS + 3600, float64(nowS) + 10.9, float64(nowS) + 11.1} {
 		v := v
 		cds = append(cds, cd{fmt.Sprintf("nbf=%v(%T)", v, v), func(c M) { c["nbf"] = v }})
+	}
+	// dates beyond the range of int64 seconds, and beyond what a float-to-integer conversion defines: later (earlier) than any clock
+	for _, v := range []float64{1e19, 9.3e18, 4.7e18, 4.5e18, 1e300, -1e19, -4.7e18, 9.223372036854775807e18, 253402300800} {
+		v := v
+		cds = append(cds, cd{fmt.Sprintf("iat=%g", v), func(c M) { c["iat"] = v }})
+		cds = append(cds, cd{fmt.Sprintf("nbf=%g", v), func(c M) { c["nbf"] = v }})
+		cds = append(cds, cd{fmt.Sprintf("exp=%g", v), func(c M) { c["exp"] = v }})
 	}
 	for _, d := range []int64{-3600, -122, -121, -120, -119, -1, 0, 1} {
 		d := d
